@@ -375,8 +375,19 @@ pub fn build_app(
                         ),
                 ),
         )
+        // two resources with the same pattern, told apart by a method guard only: the name of the
+        // matched resource is then known from the routing decision, not from the path
         .service(
             web::resource("/b/{z}")
+                .name("b-get")
+                .guard(actix_web::guard::Get())
+                .app_data(ResData("b-get"))
+                .to(handler(ctx.clone(), 203)),
+        )
+        .service(
+            web::resource("/b/{z}")
+                .name("b-post")
+                .guard(actix_web::guard::Post())
                 .app_data(ResData("b"))
                 .to(handler(ctx.clone(), 202)),
         )
@@ -661,6 +672,27 @@ pub struct HistoryResult {
     pub log: Vec<String>,
 }
 
+/// Drop a value that owns a request object; a panic while doing so is an outcome, not a crash.
+fn guarded_drop<T>(x: T, ops: &[Op], i: usize, weight_base: u64, doing: &str) -> Option<Violation> {
+    let r = std::panic::catch_unwind(AssertUnwindSafe(move || drop(x)));
+    if r.is_ok() {
+        return None;
+    }
+    let (msg, loc) = util::take_panic().unwrap_or_default();
+    if msg.starts_with("MACHINERY") {
+        mc_core::machinery(msg);
+    }
+    let prefix: Vec<String> = ops[..=i].iter().map(|o| op_name(*o)).collect();
+    Some(Violation {
+        property: "C11".into(),
+        clause: "panic".into(),
+        signature: format!("panic:{}:{}", util::panic_file(&loc), util::panic_class(&msg)),
+        what: format!("history [{}]: panic while {doing} at op {i}: {msg} at {loc}", prefix.join(", ")),
+        replay: json!({"ops": prefix, "fail_op": i, "fail_burst_index": Value::Null}),
+        weight: ((i as u64 + 1) << 48) | (weight_base & 0xffff_ffff_ffff),
+    })
+}
+
 fn fold(h: &mut u64, x: u64) {
     *h ^= x;
     *h = h.wrapping_mul(0x100000001b3);
@@ -694,7 +726,11 @@ pub async fn run_history(
                     let idx = if *op == Op::DropOldest { 0 } else { model.stash.len() - 1 };
                     let (addr, prev) = model.stash.remove(idx);
                     let r = ctx.stash.borrow_mut().remove(idx);
-                    drop(r);
+                    if let Some(v) = guarded_drop(r, ops, i, weight_base, "dropping a stashed request clone") {
+                        st.panics += 1;
+                        violations.push(v);
+                        break 'ops;
+                    }
                     model.release(addr, prev, How::StashDropped, st);
                     st.stash_drops += 1;
                     fold(&mut obs, 0x51 + idx as u64);
@@ -802,7 +838,11 @@ pub async fn run_history(
         }
         // release the burst in arrival order
         for (res, addr, key) in held {
-            drop(res);
+            if let Some(v) = guarded_drop(res, ops, i, weight_base, "releasing a held burst response") {
+                st.panics += 1;
+                violations.push(v);
+                break 'ops;
+            }
             model.release(addr, key, How::BurstReleased, st);
         }
     }
